@@ -18,6 +18,7 @@ RULE = ("bases: 23 built-in/custom gates; modifiers: dagger, controlled(1|2), po
         "one-parameter bases the residual is a trigonometric polynomial: certificate grid => all real parameters. non-trivial = chain of length >= 1 whose "
         "last step changes the matrix")
 RULE += ' Also: replace_params with tuples containing exact zeros / ints; bases at special parameter points (identity / Hermitian matrices) and with exact sympy parameters.'
+RULE += ' Round 6: power(1/q).power(p) for every q up to 130 (260) and p in {3, q-1, q, 2q}; nested exponentials over non-diagonalisable custom matrices.'
 RULE += ' Round 5: power(1/q) for q up to 1024 over 10 bases.'
 ASSUMPTIONS = ["numpy dense arithmetic; reference expm by Taylor scaling-and-squaring", "base gate matrices are decided by C02",
                "fractional powers and exp are checked at the listed parameter values only (not polynomial)"]
@@ -233,7 +234,7 @@ def cutoff_case(case):
     return {"ok": True, "nt": True, "ops": k, "out": "certified" if deg else "grid-only", "extra": {"certified": int(bool(deg)), "grid": len(pts)}}
 
 
-FUNCS = {"unit_fractions": chain_case, "special_bases": chain_case, "exact_parameters": chain_case, "chains": chain_case, "termination": chain_case, "transcendental_pairs": chain_case, "cutoff": cutoff_case}
+FUNCS = {"defective_customs": chain_case, "root_then_power": chain_case, "unit_fractions": chain_case, "special_bases": chain_case, "exact_parameters": chain_case, "chains": chain_case, "termination": chain_case, "transcendental_pairs": chain_case, "cutoff": cutoff_case}
 
 
 def chains(depth, max_trans=1):
@@ -268,6 +269,16 @@ def run(run):
     uf = [{"base": b, "chain": [["power", "1/%d" % q]], "maxq": 2} for b in (G("X"), G("T"), G("S"), G("H"), G("RX", 0.3), G("PHASE", 2.5), G("SWAP"), G("ISWAP"), G("custom1"), G("XX", 0.3)) for q in qs]
     uf += [{"base": b, "chain": [["power", "1/%d" % q], ["controlled", 1]], "maxq": 3} for b in (G("T"), G("RX", 0.3)) for q in (5, 128)]
     secs.append(Section("unit_fractions", uf, chain_case, horizon=300, chunk=2, desc="power(1/q) for q in %s over 10 bases: the q-th power of the returned matrix is the original" % (list(qs),)))
+    # an integer power ON TOP of a root: (G^(1/q))^p is the p-fold product of the root - for every q up to 130 (thorough 260) and p in {q - 1, q, 2q, 3}
+    rq = list(range(2, 131)) if not thorough else list(range(2, 261))
+    rp_ = [{"base": b, "chain": [["power", "1/%d" % q], ["power", p]], "maxq": 2} for b in (G("RX", 0.3), G("T"), G("X"), G("SWAP")) for q in rq for p in sorted({q - 1, q, 2 * q, 3})
+           if not (b.get("g") == "SWAP" and q % 3 != 1)]
+    rp_ += [{"base": G("custom1"), "chain": [["power", "1/%d" % q], ["power", p]], "maxq": 2} for q, p in ((2, 2), (3, 3), (3, 6), (5, 4), (7, 7))]     # dense complex entries: sympy's powers of these grow quickly
+    secs.append(Section("root_then_power", rp_, chain_case, horizon=300, chunk=16, desc="power(1/q).power(p) for every q in 2..%d, p in {3, q-1, q, 2q} over 4 bases (+ a dense custom gate for small q): the p-fold product of the returned root" % rq[-1]))
+    dch = [[["exp"]], [["exp"], ["exp"]], [["exp"], ["dagger"], ["exp"]], [["exp"], ["power", 2], ["exp"]], [["dagger"], ["exp"], ["exp"]], [["exp"], ["controlled", 1]], [["controlled", 1], ["exp"]],
+           [["power", 2]], [["power", 3], ["dagger"]], [["dagger"], ["power", 2]], [["exp"], ["power", -1]], [["exp"], ["exp"], ["dagger"]]]
+    secs.append(Section("defective_customs", [{"base": G(b), "chain": c, "maxq": 2} for b in ("customnil", "customjordan", "customjordanc") for c in dch], chain_case, horizon=300, chunk=2,
+                        desc="modifier chains with nested exponentials over custom definitions whose matrices are not diagonalisable (nilpotent / Jordan blocks): the matrix functions are still the definitions"))
     secs.append(Section("transcendental_pairs", tp, chain_case, horizon=300, chunk=1, desc="transcendental modifier applied on top of a transcendental one"))
     term = [{"base": G("T"), "chain": c, "maxq": 2} for c in ([["exp"]], [["dagger"], ["exp"]], [["power", 2], ["exp"]], [["power", "1/2"]], [["power", "1/3"]])] + \
            [{"base": G("S"), "chain": [["exp"]], "maxq": 2}, {"base": G("PHASE", 2.5), "chain": [["exp"]], "maxq": 2}]
